@@ -340,3 +340,21 @@ def finding_key(o, clause):
     if clause == "Produced" and c["kind"] == "clip":
         k += "/" + str(o["out"].get("raised"))
     return k
+
+
+MANIFEST = {
+    "text": ("AudioAxis.tla states C15 on integer sample arithmetic (n = floor(dur*sr), off = floor(start*sr), frame i = file frame off+i "
+             "or 0 past EOF, time (off+i)/sr, same frame as load_recording; every axis strictly increasing, starting at the source's "
+             "start, within one advertised step of first + i*step). MC_AudioAxis.tla transcribes load_recording, load_clip "
+             "(floor/seek/zero-fill/axis from the snapped offset), resample (num = floor(N*target/sr), scipy's coordinates) and "
+             "compute_spectrogram (nperseg/noverlap by truncation, scipy's triage/extension/padding/frame count) as a state machine; "
+             "TLC checks Impl => Req for every clip on the quarter-sample lattice incl. past EOF, every window/hop pair and target "
+             "rate of the bounded universe (resample drift bounded; as-found counterexamples kept in spec/history), and prints each "
+             "call as a case. The binder writes the WAV, calls the real functions and encodes frames as integers and coordinates as "
+             "exact limb numbers; TLC validates every observation clause by clause (exact on dyadic units, boundary guard and 2.4e-10 "
+             "sample tolerance on stress units), plus random calls on larger universes."),
+    "note": ("trusted: TLC, the binder checks/c15.py (encoder + exact Fraction reductions), soundfile's write path; bounded-exhaustive "
+             "lattice + seeded random sampling; numerical values of resampled audio / STFT are not judged; resample's output length is "
+             "not pinned by the statement and not judged"),
+    "design_ref": "DESIGN.md section 4 C15, section 5 F13",
+}
